@@ -6,7 +6,7 @@ exit (return or panic), each instance of J that mentions a field the call wrote;
 from vlib import facts, rules, e2props
 from vlib.report import Run
 
-ENTRIES = ["detach", "checked_append", "checked_prepend", "checked_insert_after", "checked_insert_before", "append_value", "new_node"]
+ENTRIES = ["detach", "checked_append", "checked_prepend", "checked_insert_after", "checked_insert_before", "append_value", "new_node", "remove", "remove_subtree"]
 J_FOR_C01 = ("J0", "J1", "J2a", "J2b", "J2c", "J2d", "J2e")
 
 
